@@ -40,6 +40,9 @@ func Scenarios(thorough bool) map[string]*Scenario {
 		Steps: []StepSpec{{Replicas: "1", Traffic: "20%"}, {Replicas: "100%"}}}
 	m["Q31"] = &Scenario{ID: "Q31", Kind: "CloneSet", Style: "partition", Replicas: 2, Traffic: "custom", CustomDR: true, Grace: 1,
 		Steps: []StepSpec{{Replicas: "1", Traffic: "20%"}, {Replicas: "100%"}}}
+	// the same with gracePeriodSeconds 0 (nothing makes a finalising step run twice: one lost error is final)
+	m["Q31g"] = &Scenario{ID: "Q31g", Kind: "CloneSet", Style: "partition", Replicas: 2, Traffic: "custom", CustomDR: true, Grace: 0,
+		Steps: []StepSpec{{Replicas: "1", Traffic: "20%"}, {Replicas: "100%"}}}
 	m["Q22"] = &Scenario{ID: "Q22", Kind: "CloneSet", Style: "partition", Replicas: 2, Traffic: "custom", TRCR: true, Grace: 1,
 		Steps: []StepSpec{{Replicas: "1"}, {Replicas: "2"}}}
 	// CloneSet partition + Gateway API HTTPRoute
@@ -51,6 +54,10 @@ func Scenarios(thorough bool) map[string]*Scenario {
 	// only for rollouts without traffic routing)
 	m["Q09b"] = &Scenario{ID: "Q09b", Kind: "CloneSet", Style: "bluegreen", Replicas: 2, Traffic: "ingress", Grace: 1, RollbackInBatch: true,
 		Steps: []StepSpec{{Replicas: "100%", Traffic: "0%"}, {Replicas: "100%", Traffic: "100%"}}}
+	// a workload that has just been created and owns no pod yet when the release starts: for a while
+	// spec.replicas > 0 and status.replicas == 0
+	m["Q01z"] = &Scenario{ID: "Q01z", Kind: "CloneSet", Style: "partition", Replicas: 2, ColdStart: true,
+		Steps: []StepSpec{{Replicas: "50%"}, {Replicas: "100%"}}}
 	// percentages that resolve to the same pod count rounded down and to different counts rounded up (25 % of 4 = 1,
 	// 40 % of 4 = 1.6): a jump between them is NOT a jump between equal steps
 	m["Q01j"] = &Scenario{ID: "Q01j", Kind: "CloneSet", Style: "partition", Replicas: 4,
@@ -179,7 +186,7 @@ func plans0(thorough bool) map[string]PropertyPlan {
 			FreeQueues: true, StateCap: capQ, Monitors: func(w *World, sc *Scenario) []Monitor { return []Monitor{ExposureMonitor{}} }},
 		"C02": {Scenarios: []string{"Q01", "Q01b", "Q01j", "Q01L", "Q04", "Q05", "Q08", "Q09"}, Actions: []string{"pause", "resume", "editPlanMore", "rollback", "jump(3)"}, MaxUser: u, Disturbances: []string{"crash", "midcrash"}, MaxDisturb: 1,
 			FreeQueues: true, StateCap: capQ, Monitors: func(w *World, sc *Scenario) []Monitor { return []Monitor{StepMonitor{}} }},
-		"C11": {Scenarios: []string{"Q01", "Q01b", "Q01r", "Q05", "Q05r", "Q07", "Q08", "Q09", "Q10", "Q11"}, Actions: []string{"scaleUp", "scaleDown", "editPlanMore", "degrade", "jump(1)"}, MaxUser: u,
+		"C11": {Scenarios: []string{"Q01", "Q01b", "Q01r", "Q01z", "Q05", "Q05r", "Q07", "Q08", "Q09", "Q10", "Q11"}, Actions: []string{"scaleUp", "scaleDown", "editPlanMore", "degrade", "jump(1)"}, MaxUser: u,
 			FreeQueues: true, StateCap: capQ, Monitors: func(w *World, sc *Scenario) []Monitor { return []Monitor{BatchStatusMonitor{}} }},
 		"C03": {Scenarios: []string{"Q02", "Q02d", "Q02h", "Q03d", "Q05", "Q08", "Q09", "Q10t", "Q30"}, Actions: []string{"jump(2)", "jump(3)", "jump(1)", "editPlanMore", "scaleUp"}, MaxUser: u,
 			FreeQueues: true, StateCap: capQ, Monitors: func(w *World, sc *Scenario) []Monitor { return []Monitor{TrafficOrderMonitor{}} }},
@@ -189,7 +196,7 @@ func plans0(thorough bool) map[string]PropertyPlan {
 			FreeQueues: true, StateCap: capQ, Monitors: func(w *World, sc *Scenario) []Monitor { return []Monitor{RollbackOrderMonitor{}} }},
 		"C05": {Scenarios: []string{"Q02", "Q01b", "Q03", "Q05", "Q07", "Q07r", "Q08", "Q09", "Q10", "Q10t", "Q11", "Q31"}, Actions: []string{"rollback", "release3", "disable", "deleteRollout", "editPlanMore", "deleteCanary", "deleteVS"}, MaxUser: u,
 			FreeQueues: true, StateCap: capQ, Monitors: func(w *World, sc *Scenario) []Monitor { return []Monitor{&ExitMonitor{Base: CaptureBaseline(w, sc)}} }},
-		"C18": {Scenarios: []string{"Q02", "Q01b", "Q05", "Q09", "Q20", "Q22", "Q30"}, Actions: []string{"deleteRollout", "deleteWorkload", "deleteTR"}, MaxUser: 2, Disturbances: []string{"crash", "midcrash", "error"}, MaxDisturb: 1,
+		"C18": {Scenarios: []string{"Q02", "Q01b", "Q05", "Q09", "Q20", "Q22", "Q30", "Q31", "Q31g"}, Actions: []string{"deleteRollout", "deleteWorkload", "deleteTR"}, MaxUser: 2, Disturbances: []string{"crash", "midcrash", "error"}, MaxDisturb: 1,
 			FreeQueues: true, StateCap: capQ, Monitors: func(w *World, sc *Scenario) []Monitor {
 				return []Monitor{FinalizerMonitor{Base: CaptureBaseline(w, sc)}}
 			}},
